@@ -41,6 +41,12 @@ func TestVerifReplay(t *testing.T) {
 			target := verifAddr(byte(rnd.Intn(256)), byte(rnd.Intn(4)))
 			var skip []boson.Address
 			for _, p := range peers { if rnd.Intn(4) == 0 { skip = append(skip, p) } }
+			// a skip list is whatever the caller tried before: it may name peers that are not
+			// (or no longer) connected, and the same peer twice
+			if rnd.Intn(2) == 0 {
+				for n := rnd.Intn(len(peers) + 2); n > 0; n-- { skip = append(skip, verifAddr(byte(200+rnd.Intn(50)), byte(100+rnd.Intn(100)))) }
+				if len(skip) > 0 && rnd.Intn(2) == 0 { skip = append(skip, skip[0]) }
+			}
 			includeSelf := rnd.Intn(2) == 0
 			var elig []boson.Address
 			for _, p := range peers { if !p.MemberOf(skip) { elig = append(elig, p) } }
